@@ -180,7 +180,7 @@ def gen(rnd):
             proxies[other] = "http://wrong.proxy.test:1"
     direct = pshape in ("none", "empty", "other_scheme_only")
     # the proxy's reply
-    rk = rnd.choice(["200", "200", "200", "status", "unterminated_eof", "oversize", "empty", "oserr", "exc", "garbage", "connect_refused", "send_fault"])
+    rk = rnd.choice(["200", "200", "200", "status", "status_odd", "unterminated_eof", "oversize", "oversize_lines", "empty", "oserr", "exc", "garbage", "connect_refused", "send_fault"])
     status = b"200"
     reply = b""
     script = []
@@ -193,6 +193,18 @@ def gen(rnd):
         reply = b"HTTP/1.1 " + status + b" " + rnd.choice([b"Connection established", b"OK", b"Nope"]) + b"\r\n" + rnd.choice([b"", b"Proxy-Agent: t\r\n", b"Via: 1.1 x\r\nX-A: b\r\n"]) + b"\r\n"
         chunks = scen.chunkings(rnd, reply, rnd.choice(["one", "bytes", "random", "small"]), maxchunk=1024)
         script = [("data", c) for c in chunks]
+    elif rk == "status_odd":
+        # a status that only LOOKS like 200: digits outside ASCII, other separators, signs, padding
+        st = rnd.choice(["\uff12\uff10\uff10".encode("utf-8"), "\u0662\u0660\u0660".encode("utf-8"), b"2\xef\xbc\x900", b"200.0", b"2 00", b"200\xc2\xa0OK", b"200\xef\xbc\x90"])
+        sep = rnd.choice([b" ", b" ", b"\xc2\xa0"])
+        reply = b"HTTP/1.1" + sep + st + sep + b"OK\r\n\r\n"
+        script = [("data", c) for c in scen.chunkings(rnd, reply, rnd.choice(["one", "random"]), maxchunk=1024)]
+        expect = "fail"
+    elif rk == "oversize_lines":
+        # more than 16 KiB of perfectly ordinary header lines
+        reply = b"HTTP/1.1 200 OK\r\n" + b"".join(b"X-Header-%03d: %s\r\n" % (i, b"v" * 40) for i in range(rnd.choice([330, 400, 600]))) + b"\r\n"
+        script = [("data", reply[i:i + 1024]) for i in range(0, len(reply), 1024)] + [("eof",)]
+        expect = "fail"
     elif rk == "unterminated_eof":
         reply = b"HTTP/1.1 200 Connection established\r\nX: y\r\n"
         script = [("data", c) for c in scen.chunkings(rnd, reply, "random", maxchunk=1024)] + [("eof",)]
